@@ -153,8 +153,8 @@ def gen_case(rnd, prop, tier):
                 cliques = uniq
         calls = []
         for k in range(rnd.choice([1, 2, 3, 3, 4])):
-            calls.append(dict(seed=rnd.getrandbits(32), scale=rnd.choice([0.3, 1.0, 3.0, 8.0]), total=rnd.choice([1.0, 1.0, 10.0, 250.0, 1e4]),
-                              sweeps=rnd.choice(['enough', 'enough', 1, 2, 5]), sub=rnd.random() < 0.25))
+            calls.append(dict(seed=rnd.getrandbits(32), scale=rnd.choice([0.3, 1.0, 3.0, 8.0, 8.0, 60.0, 400.0]), total=rnd.choice([1.0, 1.0, 10.0, 250.0, 1e4]),
+                              sweeps=rnd.choice(['enough', 'enough', 'split', 1, 2, 5]), sub=rnd.random() < 0.25))
         return dict(engine='F', attrs=attrs, sizes=sizes, cliques=cliques, oracle=oracle, structure=structure, calls=calls,
                     total0=rnd.choice([1.0, 10.0, 100.0]), tie=rnd.choice([None, None, rnd.getrandbits(32)]), fresh_names=rnd.random() < 0.35)
     # C18
@@ -285,14 +285,25 @@ def run_c16(mbi, case):
             faults['total-changed-between-calls'] = faults.get('total-changed-between-calls', 0) + (1 if ci > 0 else 0)
         obj.total = total
         enough = (60 + 10 * ncl) if kind == 'gbp' else (2 * ncl + 4)
-        sweeps = enough if call['sweeps'] == 'enough' else call['sweeps']
-        obj.iters = sweeps
+        split = call['sweeps'] == 'split'
+        sweeps = enough if call['sweeps'] in ('enough', 'split') else call['sweeps']
         if ci > 0:
             faults['warm-message-carryover'] = faults.get('warm-message-carryover', 0) + 1
-        mu, v = guard(lambda: obj.belief_propagation(theta), 'belief_propagation:' + kind)
+        if split:
+            # the same potentials object again and again, one sweep per call: sweeps accumulate through the warm messages
+            obj.iters = 1
+            v = None
+            for _ in range(sweeps):
+                mu, v = guard(lambda: obj.belief_propagation(theta), 'belief_propagation:' + kind)
+                if v:
+                    break
+            faults['same-potentials-object-many-calls'] = faults.get('same-potentials-object-many-calls', 0) + 1
+        else:
+            obj.iters = sweeps
+            mu, v = guard(lambda: obj.belief_propagation(theta), 'belief_propagation:' + kind)
         steps += sweeps
         tag = 'oracle=%s call#%d sweeps=%d total=%g %s%s' % (kind, ci, sweeps, total, 'warm' if ci else 'cold', ' tie-permuted' if tie else '')
-        hist.append((sweeps if sweeps < 6 else 'enough', ci > 0 and case['calls'][ci - 1]['total'] != total))
+        hist.append((sweeps if sweeps < 6 else ('split' if split else 'enough'), ci > 0 and case['calls'][ci - 1]['total'] != total))
         if v:
             viol.append(v.as_dict())
             break
@@ -323,7 +334,7 @@ def run_c16(mbi, case):
         if bad:
             break
         kept.append((ci, mu, [core.arr_digest_exact(mu[c2].values) for c2 in sorted(mu)]))
-        if case['structure'] == 'acyclic' and call['sweeps'] == 'enough':
+        if case['structure'] == 'acyclic' and call['sweeps'] in ('enough', 'split'):
             logp = refmodel.joint_logp(attrs, sizes, pots_in)
             for cl in obj.cliques:
                 want = refmodel.marginal(logp, attrs, total, cl)
@@ -377,7 +388,12 @@ def materialise(case):
         x = refmodel.marginal_p(P, case['attrs'], spec['proj']).reshape(-1)
         r = random.Random(spec['seed'])
         y = x + np.array([r.gauss(0, spec['sigma']) for _ in range(x.size)])
-        out.append((sparse.eye(x.size) if r.random() < 0.5 else np.eye(x.size), y, spec['sigma'], tuple(spec['proj'])))   # LocalInference has no fix_measurements: Q=None is not supported input
+        Q = sparse.eye(x.size) if r.random() < 0.5 else np.eye(x.size)       # LocalInference has no fix_measurements: Q=None is not supported input
+        if not case['disjoint'] and x.size > 2 and r.random() < 0.2:
+            k = r.randint(1, x.size - 1)        # a query that sees only some cells: it cannot express the total
+            Q = np.eye(x.size)[:k]
+            y = y[:k]
+        out.append((Q, y, spec['sigma'], tuple(spec['proj'])))
     return out
 
 
@@ -385,7 +401,7 @@ def loss_from(tables, meas):
     tot = 0.0
     for Q, y, sigma, proj in meas:
         x = np.asarray(tables[proj], dtype=float).reshape(-1)
-        d = (x - y) / sigma
+        d = (np.asarray(Q @ x).reshape(-1) - y) / sigma
         tot += 0.5 * float(d @ d)
     return tot
 
@@ -440,6 +456,19 @@ def run_c18(mbi, case):
             viol.append(v.as_dict())
             break
         total = float(model.total)
+        if call['total'] is None:
+            # the estimated total: LocalInference and exact estimation apply the same rule to the same measurement list
+            ref_eng = mbi.FactoredInference(dom, iters=1)
+            ref_model, _ = guard(lambda: ref_eng.estimate(meas, None), 'FactoredInference.estimate')
+            if ref_model is not None and abs(total - float(ref_model.total)) > 1e-9 * max(1.0, abs(float(ref_model.total))):
+                viol.append(Violation('c18-total', 'c18-total:estimated:' + oracle, 'total=None: approximate estimation uses total %r, exact estimation %r for the same measurements (%s)' % (model.total, ref_model.total, tag)).as_dict())
+                break
+        for Q_, y_, s_, proj_ in meas:
+            if not any(set(proj_) <= set(cl) for cl in model.cliques):
+                viol.append(Violation('c18-measured-clique-missing', 'c18-measured-clique-missing:' + oracle, 'the measured clique %s is contained in no region of the returned model (%s)' % (proj_, tag)).as_dict())
+                break
+        if viol:
+            break
         if call['total'] is not None and abs(total - call['total']) > 1e-9 * call['total']:
             viol.append(Violation('c18-total', 'c18-total:' + oracle, 'the caller supplied total %r but the returned model has total %r (%s)' % (call['total'], model.total, tag)).as_dict())
             break
@@ -579,7 +608,7 @@ def shrink(case, prop):
             c['tie'] = None
             yield c
         for k, call in enumerate(calls):
-            if call['sweeps'] != 'enough' and call['sweeps'] > 1:
+            if call['sweeps'] not in ('enough', 'split') and call['sweeps'] > 1:
                 c = copy.deepcopy(case)
                 c['calls'][k]['sweeps'] = 1
                 yield c
